@@ -38,7 +38,7 @@ REQUIRED = {
     "maths/roots": 300,
     "args": 10000, "bystanders": 10000, "errstate_return": 10000, "errstate_raise": 1000, "seq": 1000,
 }
-CASE_TIMEOUT = {"quick": 60.0, "thorough": 600.0}
+CASE_TIMEOUT = {"quick": 30.0, "thorough": 600.0}
 ASSUMPTIONS = [
     "inputs are finite; magnitudes 1e-150..1e150 (no overflow of squared norms); laws involving cross-product norms "
     "(angle_3pts, cotan, signed angles) are judged for magnitudes 1e-60..1e60 only, side-effect clauses everywhere",
